@@ -47,7 +47,7 @@ PROPS = {
     "C02": dict(modules=["Rosmar.Properties.C02"], slices=[KV, KVD],
                 proj=P(rb=ROW, results=True, ops={"wcas", "remove", "wwx", "wtx", "updx", "rmx", "uxdb", "swm", "dwm", "update", "wuwx"}),
                 what="results of CAS-conditional writes and the row before/after"),
-    "C04": dict(modules=["Rosmar.Properties.C04"], slices=[CLOCK, CLOCKD, KV],
+    "C04": dict(modules=["Rosmar.Properties.C04", "Rosmar.Gen.Tie"], slices=[CLOCK, CLOCKD, KV],
                 proj=P(rb=["row", "row.cas"], results=True, ops={"draw", "restart", "lastcas", "wcas", "remove", "touch", "setx", "updx", "wwx", "wtx", "wrx", "uxdb", "update", "wuwx"}),
                 what="every CAS handed out under adversarial clock scripts, draws by other buckets, close/reopen with a forgetful clock"),
     "C05": dict(modules=["Rosmar.Properties.C05"], slices=[KV, FEEDS, MULTI],
@@ -68,7 +68,7 @@ PROPS = {
                 what="on-disk histories with close/reopen in-process (restart) compared with the model; and fault enumeration: a child process "
                      "is SIGKILLed at instrumentation points (txn.begin, cas.afterwrite, txn.precommit, txn.committed, post.before, ...) and a "
                      "fresh process reopens and reads everything back"),
-    "C11": dict(modules=["Rosmar.Properties.C11"], slices=[MULTI, MULTID], proj=V.proj_all,
+    "C11": dict(modules=["Rosmar.Properties.C11", "Rosmar.Gen.Tie"], slices=[MULTI, MULTID], proj=V.proj_all,
                 what="every key of every collection re-read after every operation on any collection"),
     "C03": dict(modules=["Rosmar.Properties.C03"], slices=[KV, KVD], proj=V.proj_all,
                 what="forced interleavings of compound calls (Update, WriteUpdateWithXattrs, WriteSubDoc, Incr) with other writers through the "
@@ -76,7 +76,7 @@ PROPS = {
     "C13": dict(modules=["Rosmar.Properties.C13"], slices=[REG], proj=V.proj_all,
                 what="registry scripts over 2 names x (memory + 2 directories) x 4 handles: open modes, close, repeated close, CloseAndDelete, "
                      "data probes; cluster.bucketCount / GetBucketNames / directories compared after every step; forced open/close races"),
-    "C14": dict(modules=["Rosmar.Properties.C14"], slices=[EXPIRY, EXPIRYD, MULTI],
+    "C14": dict(modules=["Rosmar.Properties.C14", "Rosmar.Gen.Tie"], slices=[EXPIRY, EXPIRYD, MULTI],
                 proj=P(rb=["row", "row.v", "row.exp", "row.tomb", "ge"], ev=["k", "op", "exp"], results=True,
                        ops={"expstate", "fire", "restart", "touch", "gat"}),
                 what="stored expiries, the expiry manager's next-fire time after every operation, sweeps at scripted times, reopen"),
@@ -94,6 +94,11 @@ PROPS = {
                 what="feeds (live, dump) started through up to three handles on three collections; random orders of terminator closes, "
                      "collection drops (through any handle), handle closes, bucket deletion; after every event the done state of every feed, "
                      "callbacks after done, and probes that surviving feeds still receive events"),
+    "C20": dict(modules=["Rosmar.Properties.C20"], note_modules=["Rosmar.Properties.C20Known"], slices=[LIFE, LIFED], proj=proj_life,
+                what="forced schedules placing Close / CloseAndDelete / DropDataStore against a writer (at every instrumentation point of a "
+                     "write), a feed start, a feed delivery and the expiry-timer callback, on both bucket kinds, each in its own child process "
+                     "(panic, hang, leaked feed goroutine, unrelated bucket still usable), compared with the shutdown model's verdict; the "
+                     "lock-order graph regenerated from the source; sequential lifecycle histories"),
     "C17": dict(modules=["Rosmar.Properties.C17"], slices=[KV, FEEDS, MULTI],
                 proj=P(rb=["row", "row.rev", "gwx"], ev=["k", "rev", "cas"], results=False),
                 what="revSeqNo in the row, $document / $document.revid, live and backfill RevNo"),
@@ -132,7 +137,12 @@ def extra_C10(tier, seed, log):
     return crash.run(tier, seed, log)
 
 
-EXTRA = {"C10": extra_C10, "C14": extra_C14, "C03": extra_C03, "C13": extra_sched("C13"), "C08": extra_sched("C08"), "C09": extra_sched("C09"), "C15": extra_sched("C15")}
+def extra_C20(tier, seed, log):
+    import shutdown
+    return shutdown.run(tier, seed, log)
+
+
+EXTRA = {"C20": extra_C20, "C10": extra_C10, "C14": extra_C14, "C03": extra_C03, "C13": extra_sched("C13"), "C08": extra_sched("C08"), "C09": extra_sched("C09"), "C15": extra_sched("C15")}
 
 
 def load_lines(path):
@@ -214,7 +224,13 @@ def decide(pid, tier, seed, t0):
     log = {}
     gen_problems = V.prepare(log)
     obligations, discharged, broken, axioms = V.check_proofs(pid, cfg["modules"], log, thorough=(tier == "thorough"))
-    broken = list(broken) + gen_problems
+    if gen_problems and any(m.startswith("Rosmar.Gen") for mod in cfg["modules"] for m in V.module_files(mod)):
+        broken = list(broken) + gen_problems
+    for mod in cfg.get("note_modules", []):
+        # theorems documenting known findings: expected to stop holding when the code is repaired - a note, never a violation
+        _, _, nb, _ = V.check_proofs(pid + "note", [mod], {})
+        if nb:
+            log.setdefault("known_finding_theorems_not_checking", []).extend(nb)
     cov, divergences, rejections = correspondence(pid, cfg, tier, seed, log)
     extra_cov, extra_viol = {}, []
     if pid in EXTRA:
@@ -285,7 +301,7 @@ def decide(pid, tier, seed, t0):
     # (6) known findings: replay each witness; print while it still fails
     for k in open_findings:
         still = True
-        if k.get("kind") == "schedule":
+        if k.get("kind") in ("schedule", "shutdown"):
             still = k["signature"] in extra_sigs
         elif "witness" in k and os.path.exists(os.path.join(V.VERIF, k["witness"])):
             still = witness_still_fails(pid, k)
@@ -295,7 +311,7 @@ def decide(pid, tier, seed, t0):
             log.setdefault("known_findings_not_reproduced", []).append(k["signature"])
     # fixed findings: their witnesses must pass now
     for k in known.get("fixed", []):
-        if k["property"] == pid and k.get("kind") != "schedule" and "witness" in k and os.path.exists(os.path.join(V.VERIF, k["witness"])):
+        if k["property"] == pid and k.get("kind") not in ("schedule", "shutdown") and "witness" in k and os.path.exists(os.path.join(V.VERIF, k["witness"])):
             if witness_still_fails(pid, k):
                 path = replay_file(pid, "history", load_lines(os.path.join(V.VERIF, k["witness"])), {"regressed_fix": k["commit"], "what": k["what"]})
                 violations.append(("history", path, "fixed defect is back: " + k["what"], False))
@@ -323,7 +339,7 @@ def decide(pid, tier, seed, t0):
                         "inputs are well-formed in the sense of DESIGN.md section 7 (WF)"],
     }
     evidence["coverage"].update(extra_cov)
-    evidence["coverage"].update({k: v for k, v in log.items() if k in ("prepare_s", "leanchecker", "build_errors", "known_findings_not_reproduced")})
+    evidence["coverage"].update({k: v for k, v in log.items() if k in ("prepare_s", "leanchecker", "build_errors", "known_findings_not_reproduced", "known_finding_theorems_not_checking")})
     V.write_json(os.path.join(V.VERIF, "evidence", pid + ".json"), evidence)
     for kind, path, msg, nofail in violations:
         print("VIOLATION property=%s replay=%s%s" % (pid, path, " no-failing-input-found" if nofail else ""))
@@ -335,6 +351,10 @@ def decide(pid, tier, seed, t0):
 
 
 def witness_still_fails(pid, k):
+    if k.get("kind") == "shutdown":
+        import shutdown
+        _, viols = shutdown.run("quick", 1, {}, only=set(k["scenarios"]))
+        return any(v.get("signature") == k["signature"] for v in viols)
     if k.get("kind") == "schedule":
         import sched
         _, viols = sched.run_property(pid, {})
